@@ -1,6 +1,7 @@
 // U-EXPAND prelude, part 2 (trusted text; everything here is ASSUMED, not proved): std calls of `expander.rs::expand`.
-// Every exec fn below is a WRAPPER whose body is the very std call it stands for (rule EX3/EX4/EX5 put the wrapper's name
-// in place of the std method's); the `ensures` is the assumed meaning of that call, taken from the std documentation.
+// The ExVec / ExToString methods are WRAPPERS whose body is the very std call they stand for (rules EX3/EX5 put the wrapper's
+// name in place of the std method's); HashSet is a model type (as Path/PathBuf in prelude/keyoff_path.rs).  Each `ensures` is
+// the assumed meaning of the std call, taken from the std documentation.
 // Closures are related to the ghost function they compute by `requires` (checked by Verus at the call site against the
 // closure's own verified `ensures`).
 
@@ -120,6 +121,18 @@ pub trait ExVec<T>: Sized {
 		ensures
 			final(self).ex_view() == old(self).ex_view().subrange(0, range.start as int) + replace_with@
 				+ old(self).ex_view().subrange(range.end as int, old(self).ex_view().len() as int);
+
+	// std `Vec::drain(..)` consumed by `filter_map(f).collect()` (NOT used by the pinned code): "Removes the subslice indicated
+	// by the given range from the vector, returning a double-ended iterator over the removed subslice" - the vector is left
+	// empty, the result is as for ex_filter_map_collect (prelude/expand_slice.rs) with the elements passed by value
+	fn ex_drain_filter_map_collect<U, F: FnMut(T) -> Option<U>>(&mut self, f: F, sel: Ghost<spec_fn(T) -> bool>, rel: Ghost<spec_fn(T, U) -> bool>) -> (r: Vec<U>)
+		requires
+			forall|x: T| #[trigger] f.requires((x,)),
+			forall|x: T, o: Option<U>| #[trigger] f.ensures((x,), o) ==> (o is Some <==> (sel@)(x)) && (o is Some ==> (rel@)(x, o->Some_0)),
+		ensures
+			final(self).ex_view().len() == 0,
+			r@.len() == old(self).ex_view().filter(sel@).len(),
+			forall|k: int| 0 <= k < r@.len() ==> (rel@)(old(self).ex_view().filter(sel@)[k], #[trigger] r@[k]);
 }
 
 impl<T> ExVec<T> for Vec<T> {
@@ -132,6 +145,8 @@ impl<T> ExVec<T> for Vec<T> {
 	fn ex_retain<F: FnMut(&T) -> bool>(&mut self, f: F, keep: Ghost<spec_fn(T) -> bool>) { self.retain(f) }
 	#[verifier::external_body]
 	fn ex_splice(&mut self, range: core::ops::Range<usize>, replace_with: Vec<T>) { self.splice(range, replace_with); }
+	#[verifier::external_body]
+	fn ex_drain_filter_map_collect<U, F: FnMut(T) -> Option<U>>(&mut self, f: F, sel: Ghost<spec_fn(T) -> bool>, rel: Ghost<spec_fn(T, U) -> bool>) -> (r: Vec<U>) { self.drain(..).filter_map(f).collect() }
 }
 
 // ---- small std conversions ---------------------------------------------------------------------------------------------------
